@@ -97,6 +97,17 @@ func (self Value) sliceWithDesc(s int, e int, desc *proto.TypeDescriptor) Value 
 
 // searchFieldId in MESSAGE Node
 // if id is found, return the field tag position, otherwise return the end of p.Buf
+// errBehavior extracts the behavior code of a search error, whatever its concrete type.
+func errBehavior(err error) meta.ErrCode {
+	switch e := err.(type) {
+	case Node:
+		return e.ErrCode().Behavior()
+	case meta.Error:
+		return e.Code.Behavior()
+	}
+	return meta.ErrRead
+}
+
 func searchFieldId(p *binary.BinaryProtocol, id proto.FieldNumber, messageLen int) (int, error) {
 	start := p.Read
 	for p.Read < start+messageLen {
@@ -419,8 +430,7 @@ func (self Value) getByPath(pathes ...Path) (Value, []int) {
 			if i == len(pathes)-1 && err == errNotFound {
 				return Value{errNotFoundLast(unsafe.Pointer(uintptr(self.v)+uintptr(start)), tt), nil, false}, address
 			}
-			en := err.(Node)
-			return errValue(en.ErrCode().Behavior(), "invalid value node.", err), address
+			return errValue(errBehavior(err), "invalid value node.", err), address
 		}
 		// if not the last one, it must be a complex node, so need to skip tag
 		if i != len(pathes)-1 {
@@ -437,16 +447,14 @@ func (self Value) getByPath(pathes ...Path) (Value, []int) {
 		kt = desc.Key().Type()
 		et = desc.Elem().Type()
 		if s, err := p.SkipAllElementsWithType(desc.BaseId(), desc.IsPacked(), elemWireType(desc)); err != nil {
-			en := err.(Node)
-			return errValue(en.ErrCode().Behavior(), "invalid map node.", err), address
+			return errValue(errBehavior(err), "invalid map node.", err), address
 		} else {
 			size = s
 		}
 	case proto.LIST:
 		et = desc.Elem().Type()
 		if s, err := p.SkipAllElementsWithType(desc.BaseId(), desc.IsPacked(), elemWireType(desc)); err != nil {
-			en := err.(Node)
-			return errValue(en.ErrCode().Behavior(), "invalid list node.", err), address
+			return errValue(errBehavior(err), "invalid list node.", err), address
 		} else {
 			size = s
 		}
